@@ -208,9 +208,27 @@ def run(repo: Repo, chk: Check, thorough: bool = False) -> None:
 
     # ------------------------------------------------------------------ R20.5
     cfgi = CFG(ip)
-    splits = [n for n in ip.walk() if isinstance(n, ast.Assign) and isinstance(n.value, ast.ListComp) and "split('\\n')" in norm(n.value)]
+    splits = [n for n in ip.walk() if isinstance(n, ast.Assign) and isinstance(n.value, ast.ListComp) and
+              any(isinstance(c, ast.Call) and call_name(c) in ('split', 'splitlines') for c in ast.walk(n.value))]
     if not splits:
         chk.error('R20.5: the multi-line split was not found in IniConfigParser.parse')
+    for s_ in splits:
+        sc = [c for c in ast.walk(s_.value) if isinstance(c, ast.Call) and call_name(c) in ('split', 'splitlines')][0]
+        exact_nl = call_name(sc) == 'split' and len(sc.args) == 1 and isinstance(sc.args[0], ast.Constant) and sc.args[0].value == '\n'
+        chk.ob('R20.5', f'{ip.qn} :: one list item per LINE FEED, nothing else', exact_nl,
+               "split('\\n')" if exact_nl else
+               f'`{norm(sc)[:40]}` also breaks at form feed, vertical tab, FS/GS/RS, U+0085, U+2028 and U+2029: an item containing one of them is cut in two in an INI file, '
+               'while the same value repeated on the command line or written in TOML stays whole', repo.loc(ip.mod, s_))
+    # list literals: `[...]` is only evaluated when the value both starts with `[` and ends with `]`
+    lev = [c for c in calls_in(ip) if call_name(c) == 'literal_eval']
+    for c in lev:
+        tests_l = cfgi.dominating_tests(cfgi.stmt_of(c))
+        sw = any(pol and isinstance(t, ast.Call) and call_name(t) == 'startswith' and t.args and const_str(t.args[0]) == '[' for t, pol in tests_l)
+        ew = any(pol and isinstance(t, ast.Call) and call_name(t) == 'endswith' and t.args and const_str(t.args[0]) == ']' for t, pol in tests_l)
+        chk.ob('R20.5', f'{ip.qn} :: only a complete [...] value is evaluated as a list', sw and ew,
+               "value.startswith('[') and value.endswith(']')" if sw and ew else
+               'a plain value that merely starts with `[` (`project-name = [WIP] My Project`) is evaluated as a list literal and aborts the run, while the same text on the '
+               'command line or in TOML is accepted', repo.loc(ip.mod, c))
     for s_ in splits:
         tests = cfgi.dominating_tests(s_)
         ok = any((not pol) and isinstance(t, ast.Call) and call_name(t) == 'is_quoted' for t, pol in tests)
